@@ -654,3 +654,46 @@ Proof.
   - intros e ts He Hk Ht. apply Hbelow; auto. apply in_or_app. now left.
   - intros ts Ht. apply Hr. apply in_or_app. now left.
 Qed.
+
+(* ==================================================================================== *)
+(* 4. what is NOT invariant                                                              *)
+(* ==================================================================================== *)
+(* normal mode: the stored VERSIONS do depend on the cut (a WriteBatch is not atomic: every
+   internal transaction is a commit of its own, earlier calls on a key survive as older
+   versions and are visible to snapshots taken between the internal commits).  Set k=1; Set k=2
+   unsplit at 10 stores only k@10=2; split at 10, 11 stores k@10=1 and k@11=2 *)
+Theorem batch_split_normal_versions_refuted :
+  exists g1 t1 g2 t2 k v,
+    concat g1 = concat g2 /\ length g1 = length t1 /\ length g2 = length t2 /\
+    all_ver0 g1 /\ increasing t1 /\ increasing t2 /\
+    find_kv (run_batch g1 t1 []) k v <> find_kv (run_batch g2 t2 []) k v.
+Proof.
+  exists [[mkE [107] 0 0 0 0 [1]; mkE [107] 0 0 0 0 [2]]], [10],
+         [[mkE [107] 0 0 0 0 [1]]; [mkE [107] 0 0 0 0 [2]]], [10; 11], [107], 10.
+  repeat split; try reflexivity.
+  - intros g e [<-|[]] [<-|[<-|[]]]; reflexivity.
+  - repeat constructor.
+  - repeat constructor; lia.
+  - vm_compute. discriminate.
+Qed.
+
+(* increasing commit timestamps TOGETHER WITH explicit versions (WriteBatch.DeleteAt has no
+   managed-mode guard, unlike SetEntryAt): the reader's view depends on the cut.
+   DeleteAt(k, 11); Set(k, 1): unsplit at 10 the tombstone k@11 shadows k@10=1; split at 10, 11
+   the Set is stamped 11 and REPLACES the tombstone.  So `all_ver0` cannot be dropped from
+   batch_split_invariance_normal *)
+Theorem batch_split_mixed_refuted :
+  exists g1 t1 g2 t2 k rts,
+    concat g1 = concat g2 /\ length g1 = length t1 /\ length g2 = length t2 /\
+    increasing t1 /\ increasing t2 /\ (forall ts, In ts (t1 ++ t2) -> ts <= rts) /\
+    option_map unver (src_get (run_batch g1 t1 []) k rts) <>
+    option_map unver (src_get (run_batch g2 t2 []) k rts).
+Proof.
+  exists [[mkE [107] 11 1 0 0 []; mkE [107] 0 0 0 0 [1]]], [10],
+         [[mkE [107] 11 1 0 0 []]; [mkE [107] 0 0 0 0 [1]]], [10; 11], [107], 11.
+  repeat split; try reflexivity.
+  - repeat constructor.
+  - repeat constructor; lia.
+  - cbn [app]. intros ts [<-|[<-|[<-|[]]]]; lia.
+  - vm_compute. discriminate.
+Qed.
